@@ -25,16 +25,17 @@ VARIABLES write, read1, read2,             \* tickets / cursors (the code masks 
                                            \* mutex holder, putters parked on c1, writer parked on c2
           pc, tk, nput,                    \* per putter: program counter, slot of its ticket, puts done
           wpc, wslot, rpc, rslot,          \* writer and reader
+          rsig,                            \* slots whose c1.Signal (after FinishResult's unlock) is still to happen
           wire, rd, got, tickets           \* commands written in order; replies read; results per putter;
                                            \* tickets[s]: history of the commands filled into slot s
-vars == <<write, read1, read2, mark, slept, cmd, lk, c1q, c2q, pc, tk, nput, wpc, wslot, rpc, rslot, wire, rd, got, tickets>>
+vars == <<write, read1, read2, mark, slept, cmd, lk, c1q, c2q, pc, tk, nput, wpc, wslot, rpc, rslot, rsig, wire, rd, got, tickets>>
 Slots == 0..(N-1)
 
 Init == /\ write = 0 /\ read1 = 0 /\ read2 = 0
         /\ mark = [s \in Slots |-> 0] /\ slept = [s \in Slots |-> FALSE] /\ cmd = [s \in Slots |-> <<0,0>>]
         /\ lk = [s \in Slots |-> 0] /\ c1q = [s \in Slots |-> {}] /\ c2q = [s \in Slots |-> FALSE]
         /\ pc = [p \in P |-> "idle"] /\ tk = [p \in P |-> 0] /\ nput = [p \in P |-> 0]
-        /\ wpc = "next" /\ wslot = 0 /\ rpc = "idle" /\ rslot = 0
+        /\ wpc = "next" /\ wslot = 0 /\ rpc = "idle" /\ rslot = 0 /\ rsig = <<>>
         /\ wire = <<>> /\ rd = 0 /\ got = [p \in P |-> <<>>] /\ tickets = [s \in Slots |-> <<>>]
 
 \* ---- putters: PutOne / PutMulti
@@ -42,7 +43,7 @@ Init == /\ write = 0 /\ read1 = 0 /\ read2 = 0
 Ticket(p) == /\ pc[p] = "idle" /\ nput[p] < MaxPuts
              /\ write' = write + 1 /\ tk' = [tk EXCEPT ![p] = (write + 1) % N]
              /\ pc' = [pc EXCEPT ![p] = "lock"]
-             /\ UNCHANGED <<read1, read2, mark, slept, cmd, lk, c1q, c2q, nput, wpc, wslot, rpc, rslot, wire, rd, got, tickets>>
+             /\ UNCHANGED <<read1, read2, mark, slept, cmd, lk, c1q, c2q, nput, wpc, wslot, rpc, rslot, rsig, wire, rd, got, tickets>>
 \* n.c1.L.Lock(); for n.mark != 0 { n.c1.Wait() }; fill; unlock        hooks: ring.put.wait / ring.put.fill
 Chk(p, s) == IF mark[s] # 0 THEN
                  /\ c1q' = [c1q EXCEPT ![s] = @ \cup {p}] /\ lk' = [lk EXCEPT ![s] = 0]
@@ -57,17 +58,17 @@ Chk(p, s) == IF mark[s] # 0 THEN
                  /\ UNCHANGED c1q
 PLockChk(p) == /\ pc[p] = "lock" /\ lk[tk[p]] = 0
                /\ Chk(p, tk[p])
-               /\ UNCHANGED <<write, read1, read2, slept, c2q, tk, wpc, wslot, rpc, rslot, wire, rd, got>>
+               /\ UNCHANGED <<write, read1, read2, slept, c2q, tk, wpc, wslot, rpc, rslot, rsig, wire, rd, got>>
 \* woken: the mutex is re-acquired                                       hook: ring.put.woken
 PWoken(p) == /\ pc[p] = "parked" /\ p \notin c1q[tk[p]] /\ lk[tk[p]] = 0
              /\ lk' = [lk EXCEPT ![tk[p]] = p] /\ pc' = [pc EXCEPT ![p] = "chk"]
-             /\ UNCHANGED <<write, read1, read2, mark, slept, cmd, c1q, c2q, tk, nput, wpc, wslot, rpc, rslot, wire, rd, got, tickets>>
+             /\ UNCHANGED <<write, read1, read2, mark, slept, cmd, c1q, c2q, tk, nput, wpc, wslot, rpc, rslot, rsig, wire, rd, got, tickets>>
 PChk(p) == /\ pc[p] = "chk" /\ Chk(p, tk[p])
-           /\ UNCHANGED <<write, read1, read2, slept, c2q, tk, wpc, wslot, rpc, rslot, wire, rd, got>>
+           /\ UNCHANGED <<write, read1, read2, slept, c2q, tk, wpc, wslot, rpc, rslot, rsig, wire, rd, got>>
 \* if s { n.c2.Broadcast() }  -- after the unlock, without the lock        hook: ring.put.bcast
 PBcast(p) == /\ pc[p] = "bcast"
              /\ c2q' = [c2q EXCEPT ![tk[p]] = FALSE] /\ pc' = [pc EXCEPT ![p] = "recv"]
-             /\ UNCHANGED <<write, read1, read2, mark, slept, cmd, lk, c1q, tk, nput, wpc, wslot, rpc, rslot, wire, rd, got, tickets>>
+             /\ UNCHANGED <<write, read1, read2, mark, slept, cmd, lk, c1q, tk, nput, wpc, wslot, rpc, rslot, rsig, wire, rd, got, tickets>>
 
 \* ---- writer: NextWriteCmd, then WaitForWrite when nothing is queued
 \* hooks: ring.nw.take / ring.nw.none
@@ -78,7 +79,7 @@ WNext == /\ wpc = "next" /\ lk[(read1 + 1) % N] = 0
                /\ read1' = read1 + 1 /\ wpc' = "next"
             ELSE /\ read1' = IF BugNoRestore THEN read1 + 1 ELSE read1
                  /\ wpc' = "wait" /\ UNCHANGED <<mark, wire>>
-         /\ UNCHANGED <<write, read2, slept, cmd, lk, c1q, c2q, pc, tk, nput, wslot, rpc, rslot, rd, got, tickets>>
+         /\ UNCHANGED <<write, read2, slept, cmd, lk, c1q, c2q, pc, tk, nput, wslot, rpc, rslot, rsig, rd, got, tickets>>
 \* WaitForWrite: lock; for n.mark != 1 { n.slept = true; n.c2.Wait(); n.slept = false }; take; unlock
 \* hooks: ring.ww.sleep / ring.ww.take
 WChk(s) == IF mark[s] = 1 THEN
@@ -90,41 +91,47 @@ WChk(s) == IF mark[s] = 1 THEN
 WWait == /\ wpc = "wait" /\ lk[(read1 + 1) % N] = 0
          /\ read1' = read1 + 1 /\ wslot' = (read1 + 1) % N
          /\ WChk((read1 + 1) % N)
-         /\ UNCHANGED <<write, read2, cmd, c1q, pc, tk, nput, rpc, rslot, rd, got, tickets>>
+         /\ UNCHANGED <<write, read2, cmd, c1q, pc, tk, nput, rpc, rslot, rsig, rd, got, tickets>>
 \* hook: ring.ww.woken
 WWoken == /\ wpc = "wparked" /\ ~c2q[wslot] /\ lk[wslot] = 0
           /\ lk' = [lk EXCEPT ![wslot] = W] /\ wpc' = "waitchk"
-          /\ UNCHANGED <<write, read1, read2, mark, slept, cmd, c1q, c2q, pc, tk, nput, wslot, rpc, rslot, wire, rd, got, tickets>>
+          /\ UNCHANGED <<write, read1, read2, mark, slept, cmd, c1q, c2q, pc, tk, nput, wslot, rpc, rslot, rsig, wire, rd, got, tickets>>
 WWaitChk == /\ wpc = "waitchk" /\ WChk(wslot)
-            /\ UNCHANGED <<write, read1, read2, cmd, c1q, pc, tk, nput, wslot, rpc, rslot, rd, got, tickets>>
+            /\ UNCHANGED <<write, read1, read2, cmd, c1q, pc, tk, nput, wslot, rpc, rslot, rsig, rd, got, tickets>>
 
 \* ---- reader: a reply for the next written command exists when rd < Len(wire)
 \* NextResultCh: the slot mutex is taken and KEPT until FinishResult      hooks: ring.nr.take / ring.nr.none
-RNext == /\ rpc = "idle" /\ rd < Len(wire) /\ lk[(read2 + 1) % N] = 0
+RNext == /\ rpc = "idle" /\ rsig = <<>> /\ rd < Len(wire) /\ lk[(read2 + 1) % N] = 0
          /\ LET s == (read2 + 1) % N IN
             /\ lk' = [lk EXCEPT ![s] = R] /\ rslot' = s
             /\ IF mark[s] = 2 THEN /\ mark' = [mark EXCEPT ![s] = 0] /\ read2' = read2 + 1 /\ rpc' = "send"
                               ELSE /\ rpc' = "fin" /\ UNCHANGED <<mark, read2>>
-         /\ UNCHANGED <<write, read1, slept, cmd, c1q, c2q, pc, tk, nput, wpc, wslot, wire, rd, got, tickets>>
+         /\ UNCHANGED <<write, read1, slept, cmd, c1q, c2q, pc, tk, nput, wpc, wslot, rsig, wire, rd, got, tickets>>
 \* ch <- result: rendezvous on the slot's unbuffered channel with whoever receives on it
 RSend == /\ rpc = "send"
          /\ \E p \in P : /\ pc[p] = "recv" /\ tk[p] = rslot
                          /\ got' = [got EXCEPT ![p] = Append(@, wire[rd + 1])]
                          /\ pc' = [pc EXCEPT ![p] = "idle"]
          /\ rd' = rd + 1 /\ rpc' = "fin"
-         /\ UNCHANGED <<write, read1, read2, mark, slept, cmd, lk, c1q, c2q, tk, nput, wpc, wslot, rslot, wire, tickets>>
-\* FinishResult: Unlock, Signal one putter waiting for the slot             hook: ring.fin
+         /\ UNCHANGED <<write, read1, read2, mark, slept, cmd, lk, c1q, c2q, tk, nput, wpc, wslot, rslot, rsig, wire, tickets>>
+\* FinishResult: r.resc.L.Unlock() ...                                        hook: ring.fin
 RFin == /\ rpc = "fin"
         /\ lk' = [lk EXCEPT ![rslot] = 0]
-        /\ IF BugNoSignal THEN UNCHANGED c1q
-           ELSE (\/ c1q[rslot] = {} /\ UNCHANGED c1q
-                 \/ \E q \in c1q[rslot] : c1q' = [c1q EXCEPT ![rslot] = @ \ {q}])
+        /\ rsig' = IF BugNoSignal THEN rsig ELSE Append(rsig, rslot)
         /\ rpc' = "idle"
-        /\ UNCHANGED <<write, read1, read2, mark, slept, cmd, c2q, pc, tk, nput, wpc, wslot, rslot, wire, rd, got, tickets>>
+        /\ UNCHANGED <<write, read1, read2, mark, slept, cmd, c1q, c2q, pc, tk, nput, wpc, wslot, rslot, wire, rd, got, tickets>>
+\* ... r.resc.Signal(): wakes one putter waiting for that slot, if any -- after the unlock, without the lock
+\* (the reader does this before anything else, so at most one is outstanding)          not observable
+RSignal == /\ rsig # <<>>
+           /\ LET s == Head(rsig) IN
+                 \/ c1q[s] = {} /\ UNCHANGED c1q
+                 \/ \E q \in c1q[s] : c1q' = [c1q EXCEPT ![s] = @ \ {q}]
+           /\ rsig' = Tail(rsig)
+           /\ UNCHANGED <<write, read1, read2, mark, slept, cmd, lk, c2q, pc, tk, nput, wpc, wslot, rpc, rslot, wire, rd, got, tickets>>
 
 Next == \/ \E p \in P : Ticket(p) \/ PLockChk(p) \/ PWoken(p) \/ PChk(p) \/ PBcast(p)
         \/ WNext \/ WWait \/ WWoken \/ WWaitChk
-        \/ RNext \/ RSend \/ RFin
+        \/ RNext \/ RSend \/ RFin \/ RSignal
 Spec == Init /\ [][Next]_vars
 FairSpec == Spec /\ WF_vars(Next)
 
